@@ -129,7 +129,7 @@ Proof.
       destruct (negb (disc p =? tag)) eqn:Ed; [fin|].
       apply negb_false_iff, N.eqb_eq in Ed. simpl. repeat split; auto.
       * apply Forall_app. split; auto. constructor; [|constructor].
-        destruct Hc as [Hb Hd]. split; congruence.
+        destruct Hc as [Hb Hd]. unfold good_res, set_queue; simpl. split; congruence.
       * apply notify_one_Forall; [exact I|]. apply set_nth_Forall; auto.
   - destruct (nth_error l t) as [[]|] eqn:En; fin.
   - destruct (nth_error l t) as [[]|] eqn:En; fin.
